@@ -127,7 +127,30 @@ def gen_unit(seed, nnames, maxdepth, pool_size):
         decl_ = ["int (*pk%d(char (*%s)[%d]))(int %s)", "int (*(*pk%d(char (*%s)[%d]))[2])(long %s, int)", "void (*pk%d(char (*%s)[%d], int zz))(int (*%s)(void))"][shape] % (k, p1, v1, p2)
         lines.append("%s { static int c%d = sizeof(*%s); return 0; }" % (decl_, k, p1))
         exp[k] = v1
+    # parameter lists nested in parameter lists: every function declarator opens a prototype scope of its own, so an inner
+    # parameter may reuse the name of an outer one (before or after it), and the body sees the outermost list only
+    for _ in range(d(_int(1, 3))):
+        val[0] += 1
+        v1 = val[0] % 1000 + 1
+        uses[0] += 1
+        k = uses[0]
+        a = d(_pick(pool))
+        b = d(_pick(pool + [a, a, a]))
+        f = dict(k=k, a=a, b=b, v1=v1, v2=v1 + 1)
+        decl_ = d(_pick([
+            "int np%(k)d(char (*%(a)s)[%(v1)d], int (*fn)(char (*%(b)s)[%(v2)d]))",
+            "int np%(k)d(int (*fn)(char (*%(b)s)[%(v2)d]), char (*%(a)s)[%(v1)d])",
+            "int np%(k)d(char (*%(a)s)[%(v1)d], int (*fn)(int (*gn)(char (*%(b)s)[%(v2)d]), long %(b)s))",
+            "int np%(k)d(char (*%(a)s)[%(v1)d], void (*fn)(char (*%(b)s)[%(v2)d], ...), int (*hn)(int %(b)s))",
+            "int np%(k)d(char (*%(a)s)[%(v1)d], int arr[sizeof(*%(a)s)], int (*fn)(char (*%(b)s)[sizeof(*%(a)s) + 1]))",
+            "int np%(k)d(char (*%(a)s)[%(v1)d], int fn(int %(b)s, int gn(int %(a)s, long zq), long zq))",
+        ])) % f
+        if d(_int(0, 1)):
+            lines.append(decl_ + ";")
+        lines.append("%s { static int c%d = sizeof(*%s); return 0; }" % (decl_, k, a))
+        exp[k] = v1
     lines.append("void scoped(void) {")
+    lines.append("\tint bproto(char (*%s)[2], int (*fn)(char (*%s)[3], int (*gn)(long %s)));" % ((d(_pick(pool)),) * 3))
     scopes.append({})      # the function body is a block scope of its own
     depth = 0
     remaining = nnames
